@@ -3031,43 +3031,40 @@ impl Zeroconf {
                 }
             }
 
-            probe.records.retain(|record| {
-                if record.get_type() == answer.get_type()
+            let conflict = probe.records.iter().any(|record| {
+                record.get_type() == answer.get_type()
                     && record.get_class() == answer.get_class()
                     && !record.rrdata_match(answer.as_ref())
-                {
-                    debug!(
-                        "found conflict name: '{name}' record: {}: {} PEER: {}",
-                        record.get_type(),
-                        record.rdata_print(),
-                        answer.rdata_print()
-                    );
-
-                    // create a new name for this record
-                    // then remove the old record in probing.
-                    let mut new_record = record.clone();
-                    let new_name = match record.get_type() {
-                        RRType::A => hostname_change(name),
-                        RRType::AAAA => hostname_change(name),
-                        _ => name_change(name),
-                    };
-                    new_record.get_record_mut().set_new_name(new_name);
-                    new_records.push(new_record);
-                    return false; // old record is dropped from the probe.
-                }
-
-                true
             });
+            if !conflict {
+                continue;
+            }
 
-            // ?????
-            // if probe.records.is_empty() {
-            //     dns_registry.probing.remove(name);
-            // }
+            debug!(
+                "found conflict name: '{name}' {}: PEER: {}",
+                answer.get_type(),
+                answer.rdata_print()
+            );
+
+            // The name is taken: every record probing for it moves to a new name,
+            // not only the record of the type that happened to differ.
+            for record in probe.records.drain(..) {
+                let mut new_record = record.clone();
+                let new_name = match record.get_type() {
+                    RRType::A => hostname_change(name),
+                    RRType::AAAA => hostname_change(name),
+                    _ => name_change(name),
+                };
+                new_record.get_record_mut().set_new_name(new_name);
+                new_records.push(new_record);
+            }
+
+            // Nothing is left to probe under the lost name.
+            let waiting_services = probe.waiting_services.clone();
+            dns_registry.probing.remove(name);
 
             // Probing again with the new names.
             let create_time = current_time_millis() + fastrand::u64(0..250);
-
-            let waiting_services = probe.waiting_services.clone();
 
             for record in new_records {
                 if dns_registry.update_hostname(name, record.get_name(), create_time) {
